@@ -153,6 +153,14 @@ def check_case(case, ctx):
             raise Violation('pytest_abnormal_exit', 'pytest exit status {}\n{}'.format(rc_p, where))
         if rc_n not in (0, 1):
             raise Violation('native_abnormal_exit', 'native exit status {}\n{}'.format(rc_n, where))
+        # a disable marker in lower / mixed case: the property does not say whether it force-disables, only that the two
+        # front ends treat it alike - it counts as disabled when pytest skips it *and* the native runner omits it
+        for k, x in inv.items():
+            if x.get('maybe_disabled'):
+                if res_p.get(k) == 'skipped' and k not in res_n:
+                    x['disabled'] = True
+                elif ctx is not None:
+                    ctx.notes['lower_case_marker_not_disabling'] += 1
         enabled = {k: x for k, x in inv.items() if not x['disabled']}
         disabled = {k for k, x in inv.items() if x['disabled']}
         flips = [k for k, x in enabled.items() if x['kind'].split('+')[0] in outcomes.OPTION_KINDS or
@@ -220,7 +228,7 @@ def check_case(case, ctx):
 @composite
 def case_strategy(D, max_modules):
     n = D.int(1, max_modules)
-    mods = [outcomes.gen_module(D, max_funcs=6, option_kinds=True, min_funcs=1) for _ in range(n)]
+    mods = [outcomes.gen_module(D, max_funcs=6, option_kinds=True, min_funcs=1, lc_disable=True) for _ in range(n)]
     return {'modules': mods, 'style': D.choice(STYLES), 'options': list(D.choice(OPTIONS))}
 
 
@@ -264,11 +272,13 @@ def hyp_packages(ctx, n_examples, max_modules):
 def fixed(ctx):
     """every style x option set on one module that holds every kind (the option-flipping ones included)"""
     kinds = ['pass', 'fail_out', 'fail_exc', 'fail_last', 'all_skipped', 'req_unmet', 'inline_skipped_after_directive',
-             'req_after_directive', 'partly', 'expected_exc', 'comment_only', 'disabled', 'disabled', 'disabled', 'disabled', 'disabled', 'needs_ellipsis', 'needs_nw', 'needs_iw']
+             'req_after_directive', 'partly', 'expected_exc', 'comment_only', 'fail_warn', 'pass_warn', 'fail_directive_first',
+             'disabled_lc', 'disabled_lc', 'disabled', 'disabled', 'disabled', 'disabled', 'disabled', 'needs_ellipsis', 'needs_nw', 'needs_iw']
     funcs = []
     for i, k in enumerate(kinds):
         funcs.append({'name': 'f{}'.format(i), 'layout': 'google' if i % 3 else 'bare', 'in_class': i % 4 == 3,
-                      'blocks': [{'kind': k, 'pattern': outcomes.DISABLE_PATTERNS[i % 5] if k == 'disabled' else None}]})
+                      'blocks': [{'kind': k, 'pattern': outcomes.DISABLE_PATTERNS[i % 5] if k == 'disabled' else (
+                          outcomes.DISABLE_PATTERNS_LC[i % 4] if k == 'disabled_lc' else None)}]})
     for style in STYLES:
         for options in sorted(set(OPTIONS)):
             ctx.guard(check_case, {'modules': [{'funcs': funcs}], 'style': style, 'options': list(options)})
